@@ -1,3 +1,3 @@
 #!/bin/sh
 # replays this counterexample against the real build
-cd /tmp/dbg_C03b && VERIF_SCRIPT=/verif/replays/C03/VHarnessMintTokensWrap_f28b928a_0/script.json VERIF_RAW_SALT=0 GOFLAGS=-mod=mod GOPROXY=off go test -vet=off -count=1 -overlay /verif/replays/C03/VHarnessMintTokensWrap_f28b928a_0/overlay.json -run ^TestVerifReplay_VHarnessMintTokensWrap$ -v ./mint
+cd /tmp/seedrepo_C03b && VERIF_SCRIPT=/verif/replays/C03/VHarnessMintTokensWrap_f28b928a_0/script.json VERIF_RAW_SALT=0 GOFLAGS=-mod=mod GOPROXY=off go test -vet=off -count=1 -overlay /verif/replays/C03/VHarnessMintTokensWrap_f28b928a_0/overlay.json -run ^TestVerifReplay_VHarnessMintTokensWrap$ -v ./mint
